@@ -49,6 +49,73 @@ pub fn translate(repo: &Path, out: &mut Out) {
     } else {
         out.miss("util.rs: cannot parse");
     }
+
+    // ---- bodies translated statement by statement (imp.rs) into the file-system monad: SBOM_FORMATS, cnb_sbom_path,
+    //      delete_layer -> GenLayerSharedImp.v
+    {
+        let cfg = crate::imp::Config {
+            methods: vec![("as_ref", "{r}"), ("as_str", "{r}"), ("join", "({r} ++ [{0}])")],
+            mutators: vec![],
+            state_calls: vec![],
+            calls: vec![("cnb_sbom_path", "(gen_cnb_sbom_path {0} {1} {2})")],
+            variants: vec![("CycloneDxJson", "CycloneDxJson"), ("SpdxJson", "SpdxJson"), ("SyftJson", "SyftJson")],
+            eq: "beq",
+            take_default: "(@nil N)",
+            mcalls: vec![
+                ("fs::remove_file", "(unlink {0})"),
+                ("default_on_not_found", "(default_on_not_found {0})"),
+                ("remove_dir_recursively", "(rdr {0})"),
+            ],
+            display: vec![],
+        };
+        let mut g = String::from("From LV Require Import Base FS LayerShared ImpPrims ImpTypes.\nOpen Scope N_scope.\n\n");
+        // const SBOM_FORMATS: &[SbomFormat] = &[..]
+        let mut formats: Option<Vec<String>> = None;
+        if let Some(file) = parse_file(&repo.join("libcnb-data/src/sbom.rs")) {
+            for it in &file.items {
+                if let syn::Item::Const(c) = it {
+                    if c.ident == "SBOM_FORMATS" {
+                        let mut e: &syn::Expr = &c.expr;
+                        while let syn::Expr::Reference(r) = e {
+                            e = &r.expr;
+                        }
+                        if let syn::Expr::Array(a) = e {
+                            formats = Some(a.elems.iter().filter_map(expr_variant).collect());
+                        }
+                    }
+                }
+            }
+        }
+        match formats {
+            Some(fs) => {
+                let _ = writeln!(g, "(* libcnb-data/src/sbom.rs *)\nDefinition SBOM_FORMATS : list sbom_format := [{}].", fs.join("; "));
+            }
+            None => out.miss("libcnb-data/src/sbom.rs: const SBOM_FORMATS"),
+        }
+        if let Some(file) = parse_file(&repo.join("libcnb/src/sbom.rs")) {
+            if let Some(f) = find_free_fn(&file, "cnb_sbom_path") {
+                let mut tr = crate::imp::Tr::new(&cfg);
+                let term = tr.vstmts(&f.block.stmts);
+                for m in &tr.missing {
+                    out.miss(format!("libcnb/src/sbom.rs: cnb_sbom_path: {m}"));
+                }
+                let _ = writeln!(g, "(* libcnb/src/sbom.rs: fn cnb_sbom_path *)\nDefinition gen_cnb_sbom_path (sbom_format : sbom_format) (base_directory : path) (base_name : bytes) : path :=\n{}.", crate::imp::indent(&term, 2));
+            } else {
+                out.miss("libcnb/src/sbom.rs: fn cnb_sbom_path");
+            }
+        }
+        if let Some(file) = parse_file(&repo.join("libcnb/src/layer/shared.rs")) {
+            if let Some(f) = find_free_fn(&file, "delete_layer") {
+                let mut tr = crate::imp::Tr::new(&cfg);
+                let term = tr.mstmts(&f.block.stmts);
+                for m in &tr.missing {
+                    out.miss(format!("shared.rs: delete_layer: {m}"));
+                }
+                let _ = writeln!(g, "(* libcnb/src/layer/shared.rs: fn delete_layer *)\nDefinition gen_delete_layer (layers_dir : path) (layer_name : bytes) : M unit :=\n{}.", crate::imp::indent(&term, 2));
+            }
+        }
+        out.coq("GenLayerSharedImp.v").push_str(&g);
+    }
     // ---- shared.rs: delete_layer
     if let Some(file) = parse_file(&repo.join("libcnb/src/layer/shared.rs")) {
         if let Some(f) = find_free_fn(&file, "delete_layer") {
